@@ -203,27 +203,27 @@ func Render(v any) string {
 // RenderPanic: explicit panic values are rendered like Render; run-time errors by class.
 func RenderPanic(r any) string {
 	if r == nil {
-		return "nopanic"
+		return "<nopanic>"
 	}
 	if e, ok := r.(runtime.Error); ok {
 		msg := e.Error()
 		switch {
 		case strings.Contains(msg, "nil pointer"):
-			return "rt:nil-deref"
+			return "<rt:nil-deref>"
 		case strings.Contains(msg, "index out of range"), strings.Contains(msg, "slice bounds"):
-			return "rt:index"
+			return "<rt:index>"
 		case strings.Contains(msg, "divide by zero"):
-			return "rt:div-zero"
+			return "<rt:div-zero>"
 		case strings.Contains(msg, "nil map"):
-			return "rt:nil-map"
+			return "<rt:nil-map>"
 		case strings.Contains(msg, "interface conversion"):
-			return "rt:type-assert"
+			return "<rt:type-assert>"
 		case strings.Contains(msg, "closed channel"):
-			return "rt:closed-chan"
+			return "<rt:closed-chan>"
 		}
-		return "rt:other"
+		return "<rt:other>"
 	}
-	return "panic:" + Render(r)
+	return "panic{" + Render(r) + "}"
 }
 
 func stripPkg(s string) string {
